@@ -1,10 +1,20 @@
 import Lean.Data.Json
 import FlooVerif.Sv
+import FlooVerif.Net
+import FlooVerif.Hw
+import FlooVerif.DescJson
+import FlooVerif.Check
 open Lean FlooVerif
 
 def jStrList (j : Json) : Except String (List String) := do
   let arr ← j.getArr?
   arr.toList.mapM (·.getStr?)
+
+def findingJson (f : Finding) : Json :=
+  Json.mkObj [("claim", f.claim), ("site", f.site), ("detail", f.detail)]
+
+def checkers : List (String × (Desc → Net → List Finding)) :=
+  [("C01", C01.check), ("C02", C02.check), ("C03", C03.check), ("C05", C05.check)]
 
 def handle (j : Json) : Except String Json := do
   let cmd ← (← j.getObjVal? "cmd").getStr?
@@ -15,6 +25,21 @@ def handle (j : Json) : Except String Json := do
     let p ← Sv.parsePackageLossless pkg
     let m ← Sv.parseModuleLossless top
     return Json.mkObj [("ok", true), ("pkgItems", p.items.length), ("topItems", m.items.length)]
+  | "check" =>
+    let pkg ← jStrList (← j.getObjVal? "pkg")
+    let top ← jStrList (← j.getObjVal? "top")
+    let props ← jStrList (← j.getObjVal? "props")
+    let d ← match decodeDesc (← j.getObjVal? "desc") with
+      | .ok d => pure d
+      | .error e => throw s!"desc: {e.cls}: {e.msg}"
+    let p ← Sv.parsePackageLossless pkg
+    let m ← Sv.parseModuleLossless top
+    let n ← Net.ofSv p m
+    let res := props.map fun pid =>
+      match checkers.find? (·.1 == pid) with
+      | some (_, chk) => (pid, Json.arr ((chk d n).map findingJson).toArray)
+      | none => (pid, Json.str "no such checker")
+    return Json.mkObj [("ok", true), ("findings", Json.mkObj res)]
   | _ => throw s!"unknown cmd {cmd}"
 
 partial def loop (h : IO.FS.Stream) (out : IO.FS.Stream) : IO Unit := do
